@@ -250,17 +250,22 @@ type raceReport struct {
 var reFrameFunc = regexp.MustCompile(`^  (\S+)\(\)$`)
 var reAccess = regexp.MustCompile(`^(Read|Write|Previous read|Previous write|Atomic read|Atomic write|Previous atomic read|Previous atomic write) (at|of) `)
 
+// skipFrame: frames of the runtime and of the standard library are skipped so that a
+// race on an object published through goa's cache is attributed to the goa (or monitor)
+// function that touched it, not to whichever regexp internals happened to run.
 func skipFrame(fn string) bool {
-	for _, p := range []string{"runtime.", "sync.", "sync/atomic.", "internal/", "runtime/"} {
-		if strings.HasPrefix(fn, p) {
-			return true
-		}
+	first := fn
+	if i := strings.IndexByte(first, '/'); i >= 0 {
+		first = first[:i]
+	} else if i := strings.IndexByte(first, '.'); i >= 0 {
+		first = first[:i]
+		return first != "main"
 	}
-	return false
+	return !strings.Contains(first, ".")
 }
 
 // parseRaceLogs counts "WARNING: DATA RACE" blocks in dir/race.* and groups them by
-// the pair of innermost non-runtime functions of the two conflicting accesses.
+// the pair of innermost non-runtime, non-stdlib functions of the two conflicting accesses.
 func parseRaceLogs(dir string) (files int, blocks int, byKey map[string]*raceReport) {
 	byKey = map[string]*raceReport{}
 	names, _ := filepath.Glob(filepath.Join(dir, "race.*"))
